@@ -78,6 +78,9 @@ BILATERAL_BOUNDARY_QUICK = [(52, 7), (7, 52), (51, 4), (4, 51), (101, 3), (3, 53
 BILATERAL_BOUNDARY_THOROUGH = [(53, 55), (101, 21), (21, 103), (50, 50)]
 
 
+BAND_COUNTER = [0]
+
+
 def gen_map(rng, shape=None, small=((3, 3), (3, 5), (4, 4), (5, 6), (6, 5), (7, 9), (8, 8), (5, 12))):
     ny, nx = shape or rng.choice(small)
     style = rng.choice(["ints", "ints", "quarters", "flat", "ramp"])
@@ -100,6 +103,17 @@ def gen_map(rng, shape=None, small=((3, 3), (3, 5), (4, 4), (5, 6), (6, 5), (7, 
         inv[:, rng.randrange(nx)] = True
     if rng.random() < 0.05:
         inv[:, :] = True
+    if max(ny, nx) > 45 and rng.random() < 0.6:
+        # a band of invalid pixels long enough to fill a whole processing block (no-data area): blocks made only of
+        # invalid pixels are where a "nothing to do here" shortcut would go wrong
+        blk = 100 if max(ny, nx) > 100 else 50
+        start = rng.choice([0, 0, blk - 5, blk])
+        length = blk + rng.choice([5, 10, 20])
+        if nx >= ny:
+            inv[:, start:start + length] = True
+        else:
+            inv[start:start + length, :] = True
+        BAND_COUNTER[0] += 1
     flags = np.zeros((ny, nx), dtype=int)
     inv_style = rng.choice(["sentinel", "nan", "keeps_value"])
     for r in range(ny):
@@ -590,9 +604,19 @@ def run(ctx, report, status):
     for _ in range(ctx.n(40, 1500)):
         check_case(ctx, report, gen_intervals(rng))
         report.count("intervals")
-    for shape in [(101, 3), (3, 102)]:
+    for shape in [(101, 3), (3, 102), (3, 215)]:
         check_case(ctx, report, gen_intervals(rng, shape))
         report.count("intervals_block_boundary")
+    # long strips (several blocks) with a fully invalid block
+    for shape in [(3, 230), (230, 3), (5, 310)]:
+        for _ in range(ctx.n(2, 6)):
+            check_case(ctx, report, gen_median(rng, shape))
+            report.count("median_block_boundary")
+    for shape in [(4, 120), (120, 4), (5, 160)]:
+        for _ in range(ctx.n(2, 6)):
+            check_case(ctx, report, gen_bilateral(rng, shape))
+            report.count("bilateral_block_boundary")
+    report.count("maps_with_invalid_band_covering_a_block", BAND_COUNTER[0])
 
 
 def search(ctx, report, status):
